@@ -94,6 +94,8 @@ struct ReqLedger {
     sent_at: u64,
     to: u64,
     on_wire: bool,
+    /// the `total` announced by the first packet of a multi-packet NODES answer
+    expected: Option<u64>,
 }
 
 pub struct HandlerRunner {
@@ -529,7 +531,12 @@ impl HandlerRunner {
                         // the final response: a single-packet answer, or the `total`-th packet of a
                         // multi-packet NODES answer (the handler counts packets)
                         let last = match &resp.body {
-                            ResponseBody::Nodes { total, .. } => *total <= 1 || l.responses as u64 >= *total,
+                            ResponseBody::Nodes { total, .. } => {
+                                if *total > 1 && l.expected.is_none() {
+                                    l.expected = Some(*total);
+                                }
+                                *total <= 1 || l.responses as u64 >= l.expected.unwrap_or(*total)
+                            }
                             _ => true,
                         };
                         if last {
